@@ -436,7 +436,9 @@ Section Step.
         else if is_cancelled s (pb_ctx r) then Some (cont s a rest, [])
         else Some (cont s a (call_handler P p h false (c_obs cfg) ++ rest), [])
     | ITaskStart p h =>
-        if is_cancelled s (pb_ctx (get_pub s p)) then Some (cont s a (ITaskDone :: rest), [])
+        (* the goroutine checks the context first - except for a Once handler, which this publish has already claimed
+           and retired while its context was live: it runs (and sees the cancelled context) *)
+        if is_cancelled s (pb_ctx (get_pub s p)) && negb (h_once (r_spec h)) then Some (cont s a (ITaskDone :: rest), [])
         else Some (cont s a (call_handler P p h true (c_obs cfg) ++ rest), [])
     | IHandlerStart p h async => Some (cont s a rest, [LHandlerStart p async])
     | ILock h =>
